@@ -1,4 +1,5 @@
-//! Verification hook (feature `verif`): called before every storage write.
+//! Verification hook (feature `verif`): called before every storage write and at the read points of the
+//! paged RPC queries (per visited index entry, and before the tip is read).
 use std::cell::RefCell;
 
 thread_local! {
@@ -25,4 +26,9 @@ pub fn before_write(site: &'static str) {
             }
         });
     }
+}
+
+/// read-side pause point (site names start with "read:"): same thread-local callback as the writes
+pub fn at_read(site: &'static str) {
+    before_write(site);
 }
